@@ -12,7 +12,10 @@ func FreeRun(c Case) Result {
 	rng := rand.New(rand.NewSource(seed))
 	r := &run{release: map[string]chan struct{}{}, arrivals: make(chan arrival, 16), parked: map[string]string{},
 		events: make(chan struct{}, 1), perturb: true, rng: rand.New(rand.NewSource(seed + 1))}
-	g, err := newRig(r)
+	// stream capacity and consumer speed vary: a small stream behind a slow reader fills up
+	buffer := []int{64, 1, 0}[rng.Intn(3)]
+	slow := time.Duration([]int{0, 0, 400}[rng.Intn(3)]) * time.Microsecond
+	g, err := newRigSized(r, buffer, slow)
 	if err != nil {
 		res.Note = "rig: " + err.Error()
 		return res
@@ -30,6 +33,11 @@ func FreeRun(c Case) Result {
 		uid++
 		r.log(Event{K: "peersend", UID: uid, ID: id})
 		_ = g.send(uid, id)
+	}
+	if rng.Intn(3) == 0 { // a burst of responses nobody asked for
+		for k := 0; k < 5; k++ {
+			respond("ZZ")
+		}
 	}
 	for i := 0; i < nCallers; i++ {
 		name := string(rune('a' + i))
